@@ -32,6 +32,11 @@ func genCase(t *rapid.T) qcase.Case {
 	return qcase.Case{Graph: g, Query: q.Text, Params: q.Params, Features: q.Features}
 }
 
+// refOptions: the one DAWGS behaviour that its code documents as an intentional dialect choice and mirrors in
+// the Neo4j rewriter (translator.go rewriteNegatedStringPredicateExpression, query/neo4j/rewrite.go): a negated
+// string predicate on a missing property is true.
+var refOptions = refcypher.Options{NegatedStringPredicate: refcypher.NegatedStringPredicateCoalesceLookups}
+
 func genOptions() cy.Options {
 	o := cy.DefaultOptions()
 	return o
@@ -61,23 +66,15 @@ func oracle(c qcase.Case) (evid.Info, error) {
 	}
 	db := pgsim.NewDB(c.Graph, kindIDs, 0)
 	got, out := db.Query(tr.SQL, tr.Params)
-	switch {
-	case out != nil && out.Unsupported():
-		info.Skip = "pgsim-unsupported: " + out.Reason()
-		return info, nil
-	case out != nil && out.IsError() && out.Class() != "runtime":
-		// emitted SQL that PostgreSQL would refuse statically is C03's subject; here it is a rejection
-		info.Skip = "sql-static-error(C03): " + short(out.Reason())
-		return info, nil
-	case out != nil && out.IsError():
-		info.Skip = "sql-runtime-error"
+	if skip := qcase.SQLOutcome(out); skip != "" {
+		info.Skip = skip
 		return info, nil
 	}
-	ref, det, err := qcase.Reference(model, c.Graph, c.Params, refcypher.Options{})
+	ref, det, err := qcase.Reference(model, c.Graph, c.Params, refOptions)
 	if err != nil {
 		var u *refcypher.Unsupported
 		if errors.As(err, &u) {
-			info.Skip = "refcypher-unsupported: " + short(u.Reason)
+			info.Skip = "refcypher-unsupported: " + qcase.Short(u.Reason)
 		} else {
 			info.Skip = "reference-runtime-error"
 		}
@@ -100,13 +97,6 @@ func oracle(c qcase.Case) (evid.Info, error) {
 		info.Classes = append(info.Classes, "rows>0")
 	}
 	return info, nil
-}
-
-func short(s string) string {
-	if len(s) > 60 {
-		return s[:60]
-	}
-	return s
 }
 
 func featureClasses(c qcase.Case) []string {
